@@ -21,8 +21,8 @@ RULE = ('Generated panels (1-6 geos quick / 1-7 thorough), all eligibility matri
         'returned >= 1 design and the feasible set has >= 2 members; distinct by input description.')
 ASSUMPTIONS = ['inputs on which either search raises are counted, not judged (C09)']
 EXHAUSTIVE = {'quick': False, 'thorough': False}
-MINIMA = {'quick': {'flat_treatment_cases': 10, 'must_include_overflow_cases': 10, 'shared_data_searches': 40, 'near_bound_cases': 25, 'dyadic_compared': 30, 'compared': 200, 'greedy_designs': 150, 'distinct_nontrivial': 80, 'referee_runs': 40},
-          'thorough': {'flat_treatment_cases': 100, 'must_include_overflow_cases': 100, 'shared_data_searches': 400, 'near_bound_cases': 250, 'dyadic_compared': 300, 'compared': 2500, 'greedy_designs': 2000, 'distinct_nontrivial': 1000, 'referee_runs': 500}}
+MINIMA = {'quick': {'low_noise_cases': 10, 'searches_after_caller_edits': 50, 'same_k_comparisons': 10, 'flat_treatment_cases': 10, 'must_include_overflow_cases': 10, 'shared_data_searches': 40, 'near_bound_cases': 25, 'dyadic_compared': 30, 'compared': 200, 'greedy_designs': 150, 'distinct_nontrivial': 80, 'referee_runs': 40},
+          'thorough': {'low_noise_cases': 100, 'searches_after_caller_edits': 500, 'same_k_comparisons': 100, 'flat_treatment_cases': 100, 'must_include_overflow_cases': 100, 'shared_data_searches': 400, 'near_bound_cases': 250, 'dyadic_compared': 300, 'compared': 2500, 'greedy_designs': 2000, 'distinct_nontrivial': 1000, 'referee_runs': 500}}
 N = {'quick': 400, 'thorough': 3600}
 CASE_TIMEOUT = {'quick': 300, 'thorough': 1200}
 
@@ -53,7 +53,10 @@ def run_case(spec):
     case['params'].pop('n_pretest_max', None)
     case['params']['n_test'] = min(case['params']['n_test'], len(case['panel']['dates']) - 4)
   else:
-    case = sl.make_case(r, g, G, focus=focus, allow=('size', 'ratio', 'volume', 'ngeos'))
+    case = sl.make_case(r, g, G, focus=focus, allow=('size', 'ratio', 'volume', 'ngeos'),
+                        cls=('near_twins' if spec['idx'] % 12 == 5 else None))       # a pair correlated above rho_max
+    if spec['idx'] % 12 == 5:
+      case['params']['n_designs'] = r.choice([1, 1, 2])
   counters = collections.Counter()
   ids_ = [str(i) for i in case['panel']['ids']]
   if not dyadic and spec['idx'] % 12 == 7 and G >= 3:
@@ -87,6 +90,25 @@ def run_case(spec):
       if r.random() < 0.7:
         case['params'].pop(k2, None)
     counters['must_include_overflow_cases'] += 1
+  low_noise = (not dyadic) and spec['idx'] % 12 == 9 and G >= 3
+  if low_noise:
+    # every geo follows one common factor with very little noise of its own (different amounts per geo): most
+    # designs pass all tests with correlations well above rho_max, and the best ones differ only in the last entry
+    import numpy as np  # pylint: disable=g-import-not-at-top
+    from mmv import gen as _gen  # pylint: disable=g-import-not-at-top
+    pn = case['panel']
+    D_ = len(pn['dates'])
+    common = np.cumsum(g.normal(0, 1.0, D_)) + 3.0 * np.sin(2 * np.pi * np.arange(D_) / 7.0)
+    for i_ in range(G):
+      size_ = float(np.exp(g.normal(0, 0.7))) * 100.0
+      pn['values'][i_] = size_ * (10.0 + 0.5 * common + r.choice([0.002, 0.005, 0.01, 0.03]) * g.normal(0, 1.0, D_))
+    pn['present'][:] = True
+    pn['dups'] = None
+    pn['features'] = list(pn['features']) + ['low_noise']
+    case['frame'] = _gen.panel_frame(pn, r, shuffle=True)
+    case['params']['n_designs'] = r.choice([1, 1, 2])
+    case['params'].pop('n_geos_max', None)
+    counters['low_noise_cases'] += 1
   truth = sl.Truth(case)
   desc = sl.describe(case, with_frame=False)
   violations = []
@@ -113,10 +135,14 @@ def run_case(spec):
       desc = sl.describe(case, with_frame=False)
       counters['near_bound_cases'] += 1
   shared = spec['idx'] % 4 == 2
-  grec = sl.run_search(case, 'greedy', interleave=(r if shared else None))
+  edits = spec['idx'] % 4 == 3      # results of earlier searches (objects of their own) edited in place by the caller
+  grec = sl.run_search(case, 'greedy', interleave=(r if shared else None), scribble_prior=(['exhaustive'] if edits and G <= 6 else None))
   counters['shared_data_searches'] += bool(grec.get('interleaved'))
+  counters['searches_after_caller_edits'] += bool(grec.get('scribbled'))
   full = dict(case, params=dict(case['params'], n_designs=100000))
   erec = sl.run_search(full, 'exhaustive')
+  # the property compares the two searches on identical inputs: also with the caller's own n_designs
+  erec_k = sl.run_search(case, 'exhaustive') if (spec['idx'] % 12 == 5 or low_noise) else None
   if (not grec['outcome'].ok or not erec['outcome'].ok or grec['designs'] is None or erec['designs'] is None):
     tag = 'greedy:%s exhaustive:%s' % (grec['outcome'].exc_type, erec['outcome'].exc_type)
     return {'nontrivial': False, 'fp': util.fp(desc), 'classes': ['raised'], 'counters': {'search_raised': 1},
@@ -124,6 +150,15 @@ def run_case(spec):
   par = sl.shadow_params(case)
   v, info = sp.c13_clauses(case, truth, grec, erec, par)
   violations += v
+  if erec_k is not None and erec_k['outcome'].ok and erec_k['designs'] and grec['designs']:
+    counters['same_k_comparisons'] += 1
+    best_k = erec_k['designs'][0]['score']
+    for pos_, d_ in enumerate(grec['designs']):
+      if not sl.has_nan(d_['score']) and not sl.has_nan(best_k) and tuple(best_k) < tuple(d_['score']) and not sp._near(best_k, d_['score']):
+        violations.append(sp.V('beats', 'greedy:beats-exhaustive-best',
+                               'with n_designs=%r greedy design #%d T=%s C=%s scores %r > the exhaustive search\'s best %r' % (
+                                   case['params'].get('n_designs', 1), pos_, d_['t'], d_['c'], d_['score'], best_k)))
+        break
   counters['compared'] += 1
   counters['dyadic_compared'] += dyadic
   counters['greedy_designs'] += len(grec['designs'])
